@@ -22,22 +22,18 @@ theorem alpha_bounds (h : AlphaHyp p) (f : Ind d)
   obtain ⟨ha1, ha2⟩ := ha
   have hsc : scarcity dTot prod f ≤ 1 := scarcity_le_one dTot prod f hd hp
   refine ⟨le_max_left _ _, max_le h.one_le_max ?_⟩
-  unfold alphaChg
   have ht0 := h.tau_nonneg
   have ht1 := h.tau_le_one
   have hb := h.base_le_max
   have hgap : 0 ≤ p.aMax - alpha f := by linarith
-  split_ifs with h0
-  · rw [h0]
+  by_cases h0 : 0 < scarcity dTot prod f
+  · rw [alphaChg_of_pos p alpha dTot prod f h0]
+    have h1 : scarcity dTot prod f * p.aTau ≤ 1 := by nlinarith
+    have : (p.aMax - alpha f) * (scarcity dTot prod f * p.aTau) ≤ (p.aMax - alpha f) * 1 :=
+      mul_le_mul_of_nonneg_left h1 hgap
     nlinarith
-  · rcases le_total (scarcity dTot prod f) 0 with hneg | hpos
-    · have : (p.aMax - alpha f) * scarcity dTot prod f * p.aTau ≤ 0 :=
-        mul_nonpos_of_nonpos_of_nonneg (mul_nonpos_of_nonneg_of_nonpos hgap hneg) ht0
-      linarith
-    · have h1 : scarcity dTot prod f * p.aTau ≤ 1 := by nlinarith
-      have : (p.aMax - alpha f) * (scarcity dTot prod f * p.aTau) ≤ (p.aMax - alpha f) * 1 :=
-        mul_le_mul_of_nonneg_left h1 hgap
-      nlinarith
+  · rw [alphaChg_of_nonpos p alpha dTot prod f (not_lt.1 h0)]
+    nlinarith
 
 /-- direction clause (default base 1): the factor rises only if demand exceeds last production -/
 theorem alpha_increase_only_if_scarce (h : AlphaHyp p) (hb : p.aBase = 1) (f : Ind d)
@@ -66,24 +62,21 @@ theorem alpha_no_increase_when_met (h : AlphaHyp p) (hb : p.aBase = 1) (f : Ind 
   have ht0 := h.tau_nonneg
   have hgap : 0 ≤ p.aMax - alpha f := by linarith
   apply max_le ha1
-  unfold alphaChg
-  have h1 : (p.aMax - alpha f) * scarcity dTot prod f * p.aTau ≤ 0 :=
-    mul_nonpos_of_nonpos_of_nonneg (mul_nonpos_of_nonneg_of_nonpos hgap hsc) ht0
-  split_ifs with h0
-  · have : (p.aBase - alpha f) * p.aTau ≤ 0 :=
-      mul_nonpos_of_nonpos_of_nonneg (by rw [hb]; linarith) ht0
-    linarith
-  · linarith
+  rw [alphaChg_of_nonpos p alpha dTot prod f hsc]
+  have : (p.aBase - alpha f) * p.aTau ≤ 0 :=
+    mul_nonpos_of_nonpos_of_nonneg (by rw [hb]; linarith) ht0
+  linarith
 
-/-- … and when it is met exactly it moves towards the base value by the fraction 1/tau -/
+/-- … and whenever it is met (exactly or with excess production) it moves towards the base value by
+    the fraction 1/tau -/
 theorem alpha_drift_to_base (h : AlphaHyp p) (hb : p.aBase = 1) (f : Ind d)
-    (ha : 1 ≤ alpha f ∧ alpha f ≤ p.aMax) (hmet : dTot f = prod f) :
+    (ha : 1 ≤ alpha f ∧ alpha f ≤ p.aMax) (hd : 0 ≤ dTot f) (hmet : dTot f ≤ prod f) :
     overprod p alpha dTot prod f = alpha f + (p.aBase - alpha f) * p.aTau := by
   obtain ⟨ha1, ha2⟩ := ha
-  have hsc : scarcity dTot prod f = 0 := scarcity_eq_zero_of_eq dTot prod f hmet
+  have hsc : scarcity dTot prod f ≤ 0 := scarcity_nonpos_of_met dTot prod f hd hmet
   have ht1 := h.tau_le_one
-  unfold overprod alphaChg
-  rw [hsc, if_pos rfl, mul_zero, zero_mul, zero_add, hb]
+  unfold overprod
+  rw [alphaChg_of_nonpos p alpha dTot prod f hsc, hb]
   apply max_eq_right
   nlinarith
 
